@@ -1,19 +1,22 @@
 #!/bin/bash
-# Applies each seeded property-breaking change to /repo, runs the check of its
-# property (and optionally extra properties), records whether a VIOLATION is
-# reported, and restores /repo.  /repo must be clean (contract files committed).
+# Applies each seeded property-breaking change to a scratch worktree of /repo's
+# HEAD (never to /repo itself), runs the check of its property there
+# (GOWP_REPO), records whether a VIOLATION is reported.
 # usage: run_seeded.sh [seed-dir-names...]   (default: all of /verif/seeded)
 cd /verif
-if [ -n "$(git -C /repo status --porcelain)" ]; then echo "/repo has uncommitted changes; commit contract files first"; exit 2; fi
-seeds="$@"; [ -z "$seeds" ] && seeds=$(ls seeded)
+WT=/tmp/seeded_wt
+git -C /repo worktree remove --force $WT 2>/dev/null
+git -C /repo worktree add --detach $WT HEAD -q || exit 2
+seeds="$@"; [ -z "$seeds" ] && seeds=$(ls seeded | grep -v '^_')
 mkdir -p /verif/seeded/_results
 for s in $seeds; do
   prop=${s%%-*}
-  if ! git -C /repo apply --check seeded/$s/patch.diff 2>/dev/null; then echo "$s: patch does not apply to the current tree"; continue; fi
-  git -C /repo apply seeded/$s/patch.diff
-  out=$(bin/gowp check $prop 2>&1); rc=$?
-  git -C /repo checkout -- . ; git -C /repo clean -fdq -e '*zz_verif_contracts.go'
+  git -C $WT checkout -q -- . ; git -C $WT clean -fdq
+  if ! git -C $WT apply --check /verif/seeded/$s/patch.diff 2>/dev/null; then echo "$s: patch does not apply to the current tree" | tee /verif/seeded/_results/$s.txt; continue; fi
+  git -C $WT apply /verif/seeded/$s/patch.diff
+  out=$(GOWP_REPO=$WT GOWP_NOEVIDENCE=1 bin/gowp check $prop 2>&1); rc=$?
   nviol=$(echo "$out" | grep -c '^VIOLATION')
   first=$(echo "$out" | grep -m1 '^FAILED' | cut -c1-200)
   echo "$s: exit=$rc violations=$nviol $first" | tee /verif/seeded/_results/$s.txt
 done
+git -C /repo worktree remove --force $WT
